@@ -771,7 +771,7 @@ func c48StorageRanges(r *mc.R, worlds []*c48World) {
 		}
 		w.named["U"] = common.HexToHash("0x1111111111111111111111111111111111111111111111111111111111111111")
 		for _, list := range lists {
-			for _, ti := range []int{0, -1} {
+			for _, ti := range mc.Pick(r, []int{0, -1}, []int{0, 1, 2, -1}) {
 				for oi, o := range bounds(w, list[0]) {
 					if ti < 0 && oi%6 != 0 {
 						continue // unknown root: a sixth of the origins (x 4 limits)
